@@ -36,10 +36,12 @@ ITERS = {
     "DequeObject": (Deque[object], deque),
 }
 ANY_NAMES = ("ListAny", "TupleVarAny", "SequenceAny", "DequeObject", "DictAny", "Tuple2Any")
+VAL_ANY = ("DictKAny",)
 DICTS = {
     "Dict": (Dict[KStub, Stub], dict), "Mapping": (typing.Mapping[KStub, Stub], dict),
     "MutableMapping": (typing.MutableMapping[KStub, Stub], dict), "DefaultDict": (DefaultDict[KStub, Stub], defaultdict),
     "DictAny": (Dict[Any, Any], dict),
+    "DictKAny": (Dict[KStub, Any], dict),          # keys are loaded, values are taken as is
 }
 TUPLES = {"Tuple2": (Tuple[Stub, Stub], 2), "Tuple1": (Tuple[Stub], 1), "Tuple3": (Tuple[Stub, KStub, Stub], 3), "Tuple2Any": (Tuple[Any, object], 2)}
 UNIONS = {"Optional": Optional[Stub], "UnionStr": Union[Stub, str], "UnionStrNone": Union[Stub, str, None],
@@ -134,7 +136,7 @@ def tuple_child_kind(name, i):
     return "k" if (name == "Tuple3" and i == 1) else "v"
 
 def cf(name, c):
-    return False if name in ANY_NAMES else child_fails(c)
+    return False if name in ANY_NAMES or name in VAL_ANY else child_fails(c)
 def kcf(name, c):
     return False if name in ANY_NAMES else kchild_fails(c)
 
@@ -167,6 +169,8 @@ def seq_bug(rk, xs):
     return rk in (0, 1, 2, 6, 7) and any(child_is_bug(c) for c in xs)
 
 def dict_bug_for(name, rk, k0, k1, v0, v1, n):
+    if name in VAL_ANY:
+        return rk in (0, 1, 6) and any(child_is_bug(k) for k in dict_data(rk, k0, k1, v0, v1, n))
     return False if name in ANY_NAMES else dict_bug(rk, k0, k1, v0, v1, n)
 
 def dict_bug(rk, k0, k1, v0, v1, n):
@@ -189,7 +193,7 @@ def expected_value(name, strict, data):
     if r[0] == "tuple":
         return ("v", tuple((c + 100) if tuple_child_kind(name, i) == "k" else Stub(c) for i, c in enumerate(r[1])))
     if r[0] == "dict":
-        d = {k + 100: Stub(v) for k, v in r[1]}
+        d = {k + 100: (v if name in VAL_ANY else Stub(v)) for k, v in r[1]}
         return ("v", defaultdict(None, d) if name == "DefaultDict" else d)
 
 def walk(data, trail):
@@ -437,7 +441,7 @@ def c07_union(name, d):
 
 ITER_NAMES = ["List", "list", "TupleVar", "Set", "FrozenSet", "Deque", "Iterable", "Reversible", "Collection",
               "Sequence", "MutableSequence", "AbstractSet", "MutableSet", "ListAny", "TupleVarAny", "SequenceAny", "DequeObject"]
-DICT_NAMES = ["Dict", "Mapping", "MutableMapping", "DefaultDict", "DictAny"]
+DICT_NAMES = ["Dict", "Mapping", "MutableMapping", "DefaultDict", "DictAny", "DictKAny"]
 TUPLE_NAMES = ["Tuple2", "Tuple1", "Tuple3", "Tuple2Any"]
 TUPLES_LEN = {"Tuple2": 2, "Tuple1": 1, "Tuple3": 3, "Tuple2Any": 2}
 UNION_NAMES = ["Optional", "UnionStr", "UnionStrNone", "UnionK"]
